@@ -78,6 +78,10 @@ pub struct Cfg {
     pub seg_hi: i64,
     /// starting value of the simulated clock
     pub t0: i32,
+    /// ordered map / set: 0 = full observation sweep after every mutation, 1 = sweeps only where
+    /// the history contains an explicit OSweep step (lookups between mutations are then as rare
+    /// as the history makes them, so state cached by lookups is not refreshed behind its back)
+    pub sweep_mode: u8,
 }
 
 impl Cfg {
@@ -94,6 +98,7 @@ impl Cfg {
             .set("seg_lo", J::Int(self.seg_lo))
             .set("seg_hi", J::Int(self.seg_hi))
             .set("t0", J::i(self.t0))
+            .set("sweep_mode", J::i(self.sweep_mode as i64))
     }
     pub fn from_json(j: &J) -> Result<Cfg, String> {
         let g = |k: &str| j.get(k).and_then(|v| v.as_i64()).ok_or(format!("cfg.{} missing", k));
@@ -109,6 +114,7 @@ impl Cfg {
             seg_lo: g("seg_lo")?,
             seg_hi: g("seg_hi")?,
             t0: g("t0")? as i32,
+            sweep_mode: j.get("sweep_mode").and_then(|v| v.as_i64()).unwrap_or(0) as u8,
         })
     }
     #[inline]
